@@ -120,7 +120,11 @@ func (g *grpcHandler) ContentTypes() map[string]struct{} {
 }
 
 func (*grpcHandler) SetTimeout(request *http.Request) (context.Context, context.CancelFunc, error) {
-	if values := request.Header[grpcHeaderTimeout]; len(values) > 0 && values[0] == "" {
+	if values := request.Header[grpcHeaderTimeout]; len(values) > 1 {
+		// A repeated field is one comma-separated list to HTTP, and that is not
+		// a timeout, whatever the lines say one by one.
+		return nil, nil, errorf(CodeInvalidArgument, "gRPC protocol error: %d timeout headers", len(values))
+	} else if len(values) > 0 && values[0] == "" {
 		// Present but empty is not the same as absent: it is a timeout without
 		// number and unit.
 		return nil, nil, errorf(CodeInvalidArgument, "gRPC protocol error: timeout header is empty")
